@@ -1,6 +1,6 @@
 //! The sixteen event kinds behind one enum: generation, canonical text, encode/decode through the real code.
 use crate::gen::Rng;
-use crate::show::hex;
+use crate::text::hex;
 use ross_protocol::convert_packet::{ConvertPacket, ConvertPacketError};
 use ross_protocol::event::{bcm::*, bootloader::*, button::*, configurator::*, gateway::*, general::*, internal::*, message::*, programmer::*, relay::*, EventError};
 use ross_protocol::packet::Packet;
@@ -90,3 +90,144 @@ impl Ev {
 }
 pub fn cerr(e: &ConvertPacketError) -> &'static str { match e { ConvertPacketError::WrongSize => "WrongSize", ConvertPacketError::UnknownEnumVariant => "UnknownEnumVariant",
     ConvertPacketError::WrongType => "WrongType", ConvertPacketError::Event(EventError::WrongEventType) => "WrongEventType" } }
+
+fn p16(s: &str) -> Option<u16> { u16::from_str_radix(s, 16).ok() }
+fn p8(s: &str) -> Option<u8> { u8::from_str_radix(s, 16).ok() }
+fn p32(s: &str) -> Option<u32> { u32::from_str_radix(s, 16).ok() }
+fn parse_bcm(tag: &str, v: &str) -> Option<BcmValue> {
+    let b = crate::text::unhex(v).unwrap_or_default();
+    Some(match (tag, b.len()) {
+        ("bin", _) => BcmValue::Binary(v == "1"),
+        ("single", 1) => BcmValue::Single(b[0]),
+        ("rgb", 3) => BcmValue::Rgb(b[0], b[1], b[2]),
+        ("rgbB", 4) => BcmValue::RgbB(b[0], b[1], b[2], b[3]),
+        ("rgbw", 4) => BcmValue::Rgbw(b[0], b[1], b[2], b[3]),
+        ("rgbwB", 5) => BcmValue::RgbwB(b[0], b[1], b[2], b[3], b[4]),
+        _ => return None,
+    })
+}
+fn parse_relay(s: &str) -> Option<RelayValue> {
+    Some(match s {
+        "on" => RelayValue::Single(true),
+        "off" => RelayValue::Single(false),
+        "first" => RelayValue::DoubleExclusive(RelayDoubleExclusiveValue::FirstChannelOn),
+        "second" => RelayValue::DoubleExclusive(RelayDoubleExclusiveValue::SecondChannelOn),
+        "none" => RelayValue::DoubleExclusive(RelayDoubleExclusiveValue::NoChannelOn),
+        _ => return None,
+    })
+}
+fn parse_msg(tag: &str, v: &str) -> Option<MessageValue> {
+    Some(match tag {
+        "u8" => MessageValue::U8(p8(v)?),
+        "u16" => MessageValue::U16(p16(v)?),
+        "u32" => MessageValue::U32(p32(v)?),
+        "bool" => MessageValue::Bool(v == "1"),
+        _ => return None,
+    })
+}
+fn bcm_bytes(v: &BcmValue) -> Vec<u8> {
+    match *v {
+        BcmValue::Binary(b) => vec![0, b as u8],
+        BcmValue::Single(x) => vec![1, x],
+        BcmValue::Rgb(r, g, b) => vec![2, r, g, b],
+        BcmValue::RgbB(r, g, b, br) => vec![3, r, g, b, br],
+        BcmValue::Rgbw(r, g, b, w) => vec![4, r, g, b, w],
+        BcmValue::RgbwB(r, g, b, w, br) => vec![5, r, g, b, w, br],
+    }
+}
+
+impl Ev {
+    /// like `show`, long data payloads by digest
+    pub fn show_short(&self) -> String {
+        match self {
+            Ev::Data(e) if e.data.len() > 64 => format!("k4:{:04x}:{:04x}:{:04x}:{}", e.receiver_address, e.transmitter_address, e.data_len, crate::text::log_bytes(&e.data)),
+            _ => self.show(),
+        }
+    }
+    /// address the event to `a` (no effect on the two broadcast announcements)
+    pub fn set_receiver(&mut self, a: u16) {
+        match self {
+            Ev::BootloaderHello(e) => e.programmer_address = a,
+            Ev::ProgrammerHello(_) | Ev::ConfiguratorHello(_) => {}
+            Ev::StartFirmware(e) => e.receiver_address = a,
+            Ev::Ack(e) => e.receiver_address = a,
+            Ev::Data(e) => e.receiver_address = a,
+            Ev::BcmChange(e) => e.bcm_address = a,
+            Ev::Pressed(e) => e.receiver_address = a,
+            Ev::Released(e) => e.receiver_address = a,
+            Ev::Tick(e) => e.receiver_address = a,
+            Ev::StartConfig(e) => e.receiver_address = a,
+            Ev::SetAddress(e) => e.receiver_address = a,
+            Ev::Message(e) => e.receiver_address = a,
+            Ev::BcmAnimate(e) => e.bcm_address = a,
+            Ev::RelaySet(e) => e.relay_address = a,
+            Ev::GatewayDiscover(e) => e.device_address = a,
+        }
+    }
+    /// inverse of `show`
+    pub fn parse(s: &str) -> Option<Ev> {
+        let t: Vec<&str> = s.split(':').collect();
+        let k: usize = t[0].strip_prefix('k')?.parse().ok()?;
+        let a = |i: usize| t.get(i).copied().and_then(p16);
+        Some(match k {
+            0 => Ev::BootloaderHello(BootloaderHelloEvent { programmer_address: a(1)?, bootloader_address: a(2)? }),
+            1 => Ev::ProgrammerHello(ProgrammerHelloEvent { programmer_address: a(1)? }),
+            2 => Ev::StartFirmware(ProgrammerStartFirmwareUpgradeEvent { receiver_address: a(1)?, programmer_address: a(2)?, firmware_size: p32(t.get(3)?)? }),
+            3 => Ev::Ack(AckEvent { receiver_address: a(1)?, transmitter_address: a(2)? }),
+            4 => Ev::Data(DataEvent { receiver_address: a(1)?, transmitter_address: a(2)?, data_len: a(3)?, data: crate::text::parse_payload(t.get(4)?)? }),
+            5 => Ev::ConfiguratorHello(ConfiguratorHelloEvent {}),
+            6 => Ev::BcmChange(BcmChangeBrightnessEvent { bcm_address: a(1)?, transmitter_address: a(2)?, index: p8(t.get(3)?)?, value: parse_bcm(t.get(4)?, t.get(5)?)? }),
+            7 => Ev::Pressed(ButtonPressedEvent { receiver_address: a(1)?, button_address: a(2)?, index: p8(t.get(3)?)? }),
+            8 => Ev::Released(ButtonReleasedEvent { receiver_address: a(1)?, button_address: a(2)?, index: p8(t.get(3)?)? }),
+            9 => Ev::Tick(SystemTickEvent { receiver_address: a(1)? }),
+            10 => Ev::StartConfig(ProgrammerStartConfigUpgradeEvent { receiver_address: a(1)?, programmer_address: a(2)?, config_size: p32(t.get(3)?)? }),
+            11 => Ev::SetAddress(ProgrammerSetDeviceAddressEvent { receiver_address: a(1)?, programmer_address: a(2)?, new_address: a(3)? }),
+            12 => Ev::Message(MessageEvent { receiver_address: a(1)?, transmitter_address: a(2)?, code: a(3)?, value: parse_msg(t.get(4)?, t.get(5)?)? }),
+            13 => Ev::BcmAnimate(BcmAnimateBrightnessEvent { bcm_address: a(1)?, transmitter_address: a(2)?, index: p8(t.get(3)?)?, duration: p32(t.get(4)?)?, target_value: parse_bcm(t.get(5)?, t.get(6)?)? }),
+            14 => Ev::RelaySet(RelaySetValueEvent { relay_address: a(1)?, transmitter_address: a(2)?, index: p8(t.get(3)?)?, value: parse_relay(t.get(4)?)? }),
+            15 => Ev::GatewayDiscover(GatewayDiscoverEvent { device_address: a(1)?, gateway_address: a(2)? }),
+            _ => return None,
+        })
+    }
+
+    /// the published encoding (padding zero), written from the documented layouts: used by generators only
+    pub fn ref_packet(&self) -> Packet {
+        let be = |x: u16| x.to_be_bytes().to_vec();
+        let (addr, code, body): (u16, u8, Vec<u8>) = match self {
+            Ev::BootloaderHello(e) => (e.programmer_address, 0, be(e.bootloader_address)),
+            Ev::ProgrammerHello(e) => (0xffff, 1, be(e.programmer_address)),
+            Ev::StartFirmware(e) => (e.receiver_address, 2, [be(e.programmer_address), e.firmware_size.to_be_bytes().to_vec()].concat()),
+            Ev::Ack(e) => (e.receiver_address, 3, be(e.transmitter_address)),
+            Ev::Data(e) => (e.receiver_address, 4, [be(e.transmitter_address), be(e.data_len), e.data.clone()].concat()),
+            Ev::ConfiguratorHello(_) => (0xffff, 5, vec![]),
+            Ev::BcmChange(e) => (e.bcm_address, 6, [be(e.transmitter_address), vec![e.index], bcm_bytes(&e.value)].concat()),
+            Ev::Pressed(e) => (e.receiver_address, 7, [be(e.button_address), vec![e.index]].concat()),
+            Ev::Released(e) => (e.receiver_address, 8, [be(e.button_address), vec![e.index]].concat()),
+            Ev::Tick(e) => (e.receiver_address, 9, vec![]),
+            Ev::StartConfig(e) => (e.receiver_address, 10, [be(e.programmer_address), e.config_size.to_be_bytes().to_vec()].concat()),
+            Ev::SetAddress(e) => (e.receiver_address, 11, [be(e.programmer_address), be(e.new_address)].concat()),
+            Ev::Message(e) => {
+                let img: Vec<u8> = match e.value {
+                    MessageValue::U8(x) => vec![0, 0, 0, 0, x, 0, 0, 0],
+                    MessageValue::U16(x) => vec![1, 0, 0, 0, x as u8, (x >> 8) as u8, 0, 0],
+                    MessageValue::U32(x) => [vec![2, 0, 0, 0], x.to_le_bytes().to_vec()].concat(),
+                    MessageValue::Bool(b) => vec![3, 0, 0, 0, b as u8, 0, 0, 0],
+                };
+                (e.receiver_address, 12, [be(e.transmitter_address), be(e.code), img].concat())
+            }
+            Ev::BcmAnimate(e) => (e.bcm_address, 13, [be(e.transmitter_address), vec![e.index], e.duration.to_be_bytes().to_vec(), bcm_bytes(&e.target_value)].concat()),
+            Ev::RelaySet(e) => {
+                let v = match e.value {
+                    RelayValue::Single(true) => 0,
+                    RelayValue::Single(false) => 1,
+                    RelayValue::DoubleExclusive(RelayDoubleExclusiveValue::FirstChannelOn) => 2,
+                    RelayValue::DoubleExclusive(RelayDoubleExclusiveValue::SecondChannelOn) => 3,
+                    RelayValue::DoubleExclusive(RelayDoubleExclusiveValue::NoChannelOn) => 4,
+                };
+                (e.relay_address, 14, [be(e.transmitter_address), vec![e.index, v]].concat())
+            }
+            Ev::GatewayDiscover(e) => (e.device_address, 15, be(e.gateway_address)),
+        };
+        Packet { is_error: false, device_address: addr, data: [vec![0, code], body].concat() }
+    }
+}
